@@ -249,10 +249,21 @@ class SZ:
         CTX.basic.append(z3.Int(name) >= lo)
         return x
 
+    @staticmethod
+    def _mono(k):
+        """z3 term of a monomial key: a size symbol, or a product of size symbols "a*b*..." (sizes such as
+        npoints * nlayers: polynomial forms, the factors sorted)"""
+        if "*" not in k:
+            return z3.Int(k)
+        e = None
+        for f in k.split("*"):
+            e = z3.Int(f) if e is None else e * z3.Int(f)
+        return e
+
     def z(s):
         e = None
         for k in sorted(s.t):
-            term = z3.Int(k) if s.t[k] == 1 else s.t[k] * z3.Int(k)
+            term = SZ._mono(k) if s.t[k] == 1 else s.t[k] * SZ._mono(k)
             e = term if e is None else e + term
         if e is None:
             return z3.IntVal(s.c)
@@ -309,7 +320,15 @@ class SZ:
             return norm(SZ({k: v * o.c for k, v in s.t.items()}, s.c * o.c))
         if not s.t:
             return o * s.c
-        raise Undecided(f"E3: non-linear size {s!r} * {o!r}")
+        # product of two symbolic sizes: polynomial form over monomials of size symbols
+        t = {}
+        for k1, v1 in list(s.t.items()) + ([(None, s.c)] if s.c else []):
+            for k2, v2 in list(o.t.items()) + ([(None, o.c)] if o.c else []):
+                fs = sorted((k1.split("*") if k1 else []) + (k2.split("*") if k2 else []))
+                key = "*".join(fs)
+                t[key] = t.get(key, 0) + v1 * v2
+        c = t.pop("", 0)
+        return norm(SZ(t, c))
 
     __rmul__ = __mul__
 
@@ -483,7 +502,8 @@ class IArr:
 
     __array_priority__ = 1000
 
-    def __init__(s, shape, f, kind="int", base=None, tobase=None, frombase=None, contig=True, layout=None):
+    def __init__(s, shape, f, kind="int", base=None, tobase=None, frombase=None, contig=True, layout=None, hit=None):
+        s._hit = hit  # partial views (basic slices): which base indices belong to the view (None: all of them)
         s._shape = tuple(norm(d) for d in shape)
         s._f = f
         s.kind = kind
@@ -552,7 +572,11 @@ class IArr:
             if s._frombase is None:
                 raise Unsupported("E3: write through a non-invertible view")
             inv = s._frombase
-            s._base._setf(lambda *b: newf(*inv(*b)))
+            if s._hit is None:
+                s._base._setf(lambda *b: newf(*inv(*b)))
+            else:  # a slice of the base: the base elements outside the slice keep their values
+                hit, old = s._hit, s._base.snapshot()
+                s._base._setf(lambda *b: ite(hit(*b), lambda: newf(*inv(*b)), lambda: old(*b)))
 
     def __deepcopy__(s, memo):
         return IArr(s._shape, s.snapshot(), s.kind)
@@ -1043,7 +1067,7 @@ def occurs(a, v):
     parts = getattr(a, "_parts", None)
     if parts is not None and a.version() == a._parts_version and all(p.version() == ver for p, ver in parts):
         return Or(*[occurs(p, v) for p, _ in parts])
-    if a._base is not None and a._frombase is not None:
+    if a._base is not None and a._frombase is not None and a._hit is None:
         return occurs(a._base, v)  # reshape / ravel / transpose views hold the same elements
     # generic: concrete axes expanded, symbolic axes bound by an existential
     g = a.snapshot()
@@ -1144,16 +1168,23 @@ def _getitem(a, key):
         bf = b.snapshot() if not isinstance(b, SetArr) else b.e
         out = IArr(b._shape + a._shape[1:], lambda *idx: g(bf(*idx[:nb]), *idx[nb:]), a.kind)
         return out
+    nsrc = sum(1 for k in key if k is not None)  # np.newaxis entries do not consume a source axis
     if any(k is Ellipsis for k in key):
         i = [j for j, k in enumerate(key) if k is Ellipsis][0]
-        key = key[:i] + (slice(None),) * (a.ndim - (len(key) - 1)) + key[i + 1 :]
-    key = key + (slice(None),) * (a.ndim - len(key))
-    if len(key) > a.ndim:
+        key = key[:i] + (slice(None),) * (a.ndim - (nsrc - 1)) + key[i + 1 :]
+        nsrc = sum(1 for k in key if k is not None)
+    key = key + (slice(None),) * (a.ndim - nsrc)
+    if sum(1 for k in key if k is not None) > a.ndim:
         raise IndexError("too many indices for array")
     # classify per axis
-    maps = []  # per source axis: ("fix", term) | ("map", length, fn)
+    maps = []  # per key entry: ("fix", term) | ("map", length, fn, inverse fn, hit fn) | ("new",) for np.newaxis
     nadv = 0
-    for ax, k in enumerate(key):
+    ax = -1
+    for k in key:
+        if k is None:
+            maps.append(("new",))
+            continue
+        ax += 1
         d = a._shape[ax]
         if isinstance(k, (bool, _np.bool_)):
             raise Unsupported("E3: scalar boolean index")
@@ -1169,7 +1200,7 @@ def _getitem(a, key):
         elif isinstance(k, (SZ, SVal)) or isz(k):
             maps.append(("fix", Z(k)))
         elif isinstance(k, slice) and k.step == -1 and k.start is None and k.stop is None:
-            maps.append(("map", d, (lambda d: lambda i: zdim(d) - 1 - i)(d)))  # a[::-1]
+            maps.append(("map", d, (lambda d: lambda i: zdim(d) - 1 - i)(d), (lambda d: lambda b: zdim(d) - 1 - b)(d), lambda b: True))  # a[::-1]
         elif isinstance(k, slice):
             if k.step not in (None, 1):
                 raise Unsupported("E3: slice step")
@@ -1184,7 +1215,7 @@ def _getitem(a, key):
             elif not (hi is d) and not bool(SZ.of(hi) <= d):
                 hi = d
             n = norm(hi - lo) if not (isinstance(hi, int) and isinstance(lo, int)) else max(hi - lo, 0)
-            maps.append(("map", n, (lambda lo: lambda i: i + zdim(lo) if not (isinstance(lo, int) and lo == 0) else i)(lo)))
+            maps.append(("map", n, (lambda lo: lambda i: i + zdim(lo) if not (isinstance(lo, int) and lo == 0) else i)(lo), (lambda lo: lambda b: b - zdim(lo))(lo), (lambda lo, n: lambda b: And(b >= zdim(lo), b < zdim(lo) + zdim(n)))(lo, n)))
         else:
             arr = _np.asarray(k)
             if arr.dtype == bool:
@@ -1205,18 +1236,41 @@ def _getitem(a, key):
             nadv += 1
     if nadv > 1:
         raise Unsupported("E3: more than one index array")
-    shape = tuple(m[1] for m in maps if m[0] == "map")
+    shape = tuple(1 if m[0] == "new" else m[1] for m in maps if m[0] != "fix")
 
     def tob(*idx):
         it = iter(idx)
-        return tuple(m[1] if m[0] == "fix" else m[2](next(it)) for m in maps)
+        out = []
+        for m in maps:
+            if m[0] == "new":
+                next(it)
+            else:
+                out.append(m[1] if m[0] == "fix" else m[2](next(it)))
+        return tuple(out)
 
     if not shape:
         v = a.f(*tob())
         return SVal(v) if isz(v) else v
     basic = nadv == 0
     if basic:
-        return IArr(shape, None, a.kind, base=a, tobase=tob, frombase=None, contig=False)
+        src = [m for m in maps if m[0] != "new"]
+
+        def fromb(*b):  # base index -> view index (meaningful where hit(*b))
+            it = iter(b)
+            out = []
+            for m in maps:
+                if m[0] == "new":
+                    out.append(0)
+                    continue
+                x = next(it)
+                if m[0] == "map":
+                    out.append(m[3](x))
+            return tuple(out)
+
+        def hit(*b):
+            return And(*[eq(x, m[1]) if m[0] == "fix" else m[4](x) for x, m in zip(b, src)])
+
+        return IArr(shape, None, a.kind, base=a, tobase=tob, frombase=fromb, contig=False, hit=hit)
     g = a.snapshot()
     return IArr(shape, lambda *idx: g(*tob(*idx)), a.kind)
 
@@ -1230,8 +1284,18 @@ def _setitem(a, key, val):
         key = (key,)
     key = key + (slice(None),) * (a.ndim - len(key))
     v = _lift(val)
-    if v is None or v.ndim != 0:
-        raise Unsupported("E3: only scalar assignment through basic / column indices")
+    if v is None:
+        raise Unsupported("E3: assigned value")
+    if v.ndim != 0:
+        # array value through basic indices (slices / integers): write through the slice view
+        view = _getitem(a, key)
+        if not isinstance(view, IArr) or view._base is not a or view._frombase is None:
+            raise Unsupported("E3: array assignment through an index array")
+        vb = _broadcast_to(v, view._shape)
+        if _KRANK[v.kind] > _KRANK[a.kind]:
+            raise TypeError("E3: assignment would change the dtype")
+        view._setf(vb.snapshot())
+        return
     c = v.f()
     conds = []
     for ax, k in enumerate(key):
@@ -1314,10 +1378,10 @@ def _tile(a, reps):
 
 def _concatenate(arrs, axis=0, **kw):
     arrs = [_lift(x) for x in arrs]
-    if axis != 0 or any(x.ndim != 1 for x in arrs):
-        raise Unsupported("E3: concatenate of nd arrays")
     if not arrs:
         raise ValueError("need at least one array to concatenate")
+    if axis != 0 or any(x.ndim != 1 for x in arrs):
+        return _concatenate_nd(arrs, axis)
     gs = [x.e if isinstance(x, SetArr) else x.snapshot() for x in arrs]
     starts = [0]
     for x in arrs:
@@ -1343,6 +1407,89 @@ def _concatenate(arrs, axis=0, **kw):
             parts.append((x, x.version()))
     out._parts, out._parts_version = parts, out.version()
     return out
+
+
+def _concatenate_nd(arrs, axis):
+    """np.concatenate of nd arrays along `axis`: block i occupies [start_i, start_i + shape_i[axis]) of that axis"""
+    nd = arrs[0].ndim
+    if axis is None or any(x.ndim != nd for x in arrs) or nd == 0:
+        raise Unsupported("E3: concatenate(axis=None) / arrays of different ndim")
+    axis = axis % nd
+    sh = arrs[0]._shape
+    for x in arrs:
+        if not all(same_size(p, q) for j, (p, q) in enumerate(zip(x._shape, sh)) if j != axis):
+            raise ValueError("all the input array dimensions except for the concatenation axis must match exactly")
+    gs = [x.snapshot() for x in arrs]
+    starts = [0]
+    for x in arrs:
+        starts.append(norm(starts[-1] + x._shape[axis]))
+    kind = max((x.kind for x in arrs), key=lambda k: _KRANK[k])
+
+    def f(*idx):
+        k = idx[axis]
+
+        def part(i):
+            here = lambda: gs[i](*idx[:axis], k - zdim(starts[i]), *idx[axis + 1 :])  # noqa: E731
+            if i == len(arrs) - 1:
+                return here()
+            return ite(k < zdim(starts[i + 1]), here, lambda: part(i + 1))
+
+        return part(0)
+
+    return IArr(sh[:axis] + (starts[-1],) + sh[axis + 1 :], f, kind)
+
+
+def _vstack(arrs, **kw):
+    arrs = [_lift(x) for x in arrs]
+    arrs = [x.reshape(1, -1) if x.ndim == 1 else (x.reshape(1, 1) if x.ndim == 0 else x) for x in arrs]
+    return _concatenate_nd(arrs, 0)
+
+
+def _hstack(arrs, **kw):
+    arrs = [_lift(x) for x in arrs]
+    if all(x.ndim == 1 for x in arrs):
+        return _concatenate(arrs)
+    return _concatenate_nd(arrs, 1)
+
+
+def _linspace(start, stop, num=50, endpoint=True, **kw):
+    """np.linspace(start, stop, num)[k] = start + k (stop - start) / (num - 1) as reals (A1); num == 1: [start]"""
+    if not endpoint or kw.get("retstep") or kw.get("axis", 0) != 0:
+        raise Unsupported("E3: linspace options")
+    n = norm(num if not isinstance(num, SVal) else num)
+    if isinstance(n, SVal):
+        raise Unsupported("E3: linspace with a count that is not a size")
+    a, b = _real(Z(start)), _real(Z(stop))
+    if isinstance(n, int) and n == 1:
+        return IArr((1,), lambda k: _toreal(a), "real")
+    if isinstance(n, int) and n < 1:
+        return IArr((max(n, 0),), lambda k: _toreal(a), "real")
+    if not isinstance(n, int) and not bool(SZ.of(n) >= 2):
+        raise Undecided("E3: linspace with a symbolic count not known to be >= 2")
+    den = _toreal(zdim(n) - 1) if not isinstance(n, int) else _toreal(n - 1)
+    return IArr((n,), lambda k: _toreal(a) + _toreal(k) * (_toreal(b) - _toreal(a)) / den, "real")
+
+
+def _pad(a, pad_width, mode="constant", **kw):
+    """np.pad(a, ((b0, a0), (b1, a1), ...)) with zeros (concrete widths)"""
+    a = _lift(a)
+    if mode != "constant" or kw:
+        raise Unsupported("E3: np.pad modes")
+    pw = _np.asarray(pad_width, dtype=int)
+    pw = _np.broadcast_to(pw, (a.ndim, 2))
+    g = a.snapshot()
+    shape = tuple(norm(d + int(lo) + int(hi)) for d, (lo, hi) in zip(a._shape, pw))
+    zero = {"int": 0, "real": 0.0, "bool": False}[a.kind]
+
+    def f(*idx):
+        inside = And(*[And(i >= int(lo), i < int(lo) + zdim(d)) for i, d, (lo, hi) in zip(idx, a._shape, pw) if int(lo) or int(hi)])
+        return ite(inside, lambda: g(*[i - int(lo) for i, (lo, hi) in zip(idx, pw)]), zero)
+
+    return IArr(shape, f, a.kind)
+
+
+def _isscalar(x):
+    return isinstance(x, (SZ, SVal)) or isz(x) or _np.isscalar(x)
 
 
 def _append(a, b, axis=None):
@@ -1384,6 +1531,10 @@ def _ones_like(a, dtype=None, **k):
 
 
 def _full(shape, fill_value, dtype=None, **k):
+    if isinstance(fill_value, SZ) and _dtype_kind(dtype) in (None, "int") and all(isinstance(d, (int, _np.integer)) for d in (shape if isinstance(shape, (tuple, list)) else (shape,))):
+        r = _np.empty(shape, dtype=object)  # a short integer vector of (symbolic) sizes, e.g. points per axis
+        r.fill(fill_value)
+        return r
     kind = _dtype_kind(dtype) or _kind_of(fill_value)
     v = Z(fill_value)
     if kind == "real" and isinstance(v, int):
@@ -1467,6 +1618,11 @@ _IMPL = {
     "repeat": _repeat,
     "tile": _tile,
     "concatenate": _concatenate,
+    "vstack": _vstack,
+    "hstack": _hstack,
+    "linspace": _linspace,
+    "pad": _pad,
+    "isscalar": _isscalar,
     "append": _append,
     "split": _split,
     "zeros_like": _zeros_like,
@@ -2172,6 +2328,74 @@ def selftest(seed=0):
             v += 1
             C.reshape(-1)[...] = C.reshape(-1) + 1
             cmp("inplace-through-view", c, C)
+    # structured-mesh constructs: np.newaxis, writes through slice views, array assignment, nd concatenate,
+    # vstack / hstack, linspace (exactly representable steps), pad, polynomial sizes
+    for trial in range(4):
+        r, c = int(rs.randint(2, 5)), int(rs.randint(2, 4))
+        A = rs.randint(0, 9, size=(r, c))
+        B = rs.randint(0, 9, size=(r, c))
+        a, b = _lift(A), _lift(B)
+        cmp("a[None]", a[None, ...], A[None, ...])
+        cmp("a[:, None, ...]", a[:, None, ...], A[:, None, ...])
+        cmp("a[..., None, None]", _arange(r)[..., None, None], _np.arange(r)[..., None, None])
+        cmp("a[None] + b[:, None]", a[None, ...] + b[:, None, ...], A[None, ...] + B[:, None, ...])
+        cmp("a[1:, ..., ::-1]", a[1:, ..., ::-1], A[1:, ..., ::-1])
+        cmp("a[:-1]", a[:-1], A[:-1])
+        cmp("a[..., 1:]", a[..., 1:], A[..., 1:])
+        for ax in (0, 1, -1):
+            cmp(f"concatenate(axis={ax})", _concatenate([a, b, a], axis=ax), _np.concatenate([A, B, A], axis=ax))
+        A3, B3 = rs.randint(0, 9, size=(2, r, c)), rs.randint(0, 9, size=(2, r, c))
+        cmp("concatenate-3d(axis=-1)", _concatenate([_lift(A3)[:-1], _lift(B3)[1:, ..., ::-1]], axis=-1), _np.concatenate([A3[:-1], B3[1:, ..., ::-1]], axis=-1))
+        cmp("vstack", _vstack([a, b]), _np.vstack([A, B]))
+        cmp("vstack-1d", _vstack([a[0], b[1]]), _np.vstack([A[0], B[1]]))
+        cmp("hstack", _hstack([a, b[:, ::-1]]), _np.hstack([A, B[:, ::-1]]))
+        cmp("hstack-1d", _hstack([a[0], b[1]]), _np.hstack([A[0], B[1]]))
+        c1, C1 = a.copy(), A.copy()
+        c1[:, -1] += 5  # getitem (slice view), in-place add through the view, setitem of the view
+        C1[:, -1] += 5
+        cmp("a[:, -1] += c", c1, C1)
+        c1[1:, 0] = _lift(B[1:, 1])
+        C1[1:, 0] = B[1:, 1]
+        cmp("a[1:, 0] = b", c1, C1)
+        c1[:, 1] = _arange(r)
+        C1[:, 1] = _np.arange(r)
+        cmp("a[:, k] = arange", c1, C1)
+        c2, C2 = _zeros((r, c)), _np.zeros((r, c))
+        c2[:, c - 1] = _linspace(0, 2.0 * (r - 1), r)
+        C2[:, c - 1] = _np.linspace(0, 2.0 * (r - 1), r)
+        cmp("zeros[:, axis] = linspace", c2, C2)
+        v1, V1 = a.copy(), A.copy()
+        w1, W1 = v1[1:], V1[1:]
+        w1 += 3  # in-place through a row-slice view
+        W1 += 3
+        cmp("slice-view-inplace", v1, V1)
+        cmp("linspace", _linspace(-1.0, -1.0 + 0.5 * (r - 1), r), _np.linspace(-1.0, -1.0 + 0.5 * (r - 1), r))
+        cmp("linspace(n=1)", _linspace(0.5, 2.0, 1), _np.linspace(0.5, 2.0, 1))
+        cmp("linspace.reshape(-1, 1)", _linspace(0, r - 1, r).reshape(-1, 1), _np.linspace(0, r - 1, r).reshape(-1, 1))
+        cmp("pad", _pad(a, ((0, 0), (0, 1))), _np.pad(A, ((0, 0), (0, 1))))
+        cmp("pad-0", _pad(a, ((0, 0), (0, 0))), _np.pad(A, ((0, 0), (0, 0))))
+        cmp("pad-both", _pad(a, ((1, 0), (2, 1))), _np.pad(A, ((1, 0), (2, 1))))
+        cmp("pad[None]", _pad(a, ((0, 0), (0, 1)))[None, ...], _np.pad(A, ((0, 0), (0, 1)))[None, ...])
+        cmp("repeat[1:-1].reshape", _repeat(_arange(r), 2)[1:-1].reshape(-1, 2), _np.repeat(_np.arange(r), 2)[1:-1].reshape(-1, 2))
+        n += 1
+        if not (_isscalar(SVal(z3.Real("t"))) and _isscalar(2.0) and not _isscalar(A) and not _isscalar(a)):
+            bad.append("isscalar")
+        f = _full(2, SZ({"n": 1}), dtype=int)
+        n += 1
+        if not (isinstance(f, _np.ndarray) and f.shape == (2,) and isinstance(f[0], SZ) and isinstance(f[-1], SZ) and f[:-1].shape == (1,)):
+            bad.append("full(dim, size)")
+    # polynomial sizes: products of size symbols evaluate like the integers they denote
+    for trial in range(6):
+        vals = {"p": int(rs.randint(1, 6)), "q": int(rs.randint(1, 6)), "r": int(rs.randint(1, 6))}
+        P, Q, R = (SZ({k: 1}) for k in "pqr")
+        for label, e, want in (("p*q", P * Q, vals["p"] * vals["q"]), ("(q-1)*p*3", (Q - 1) * P * 3, (vals["q"] - 1) * vals["p"] * 3), ("(p*q)*(r+1)-p", (P * Q) * (R + 1) - P, vals["p"] * vals["q"] * (vals["r"] + 1) - vals["p"]), ("(2*p*q*4)//4", (2 * P * Q * 4) // 4, 2 * vals["p"] * vals["q"])):
+            n += 1
+            got = z3.simplify(z3.substitute(zdim(e) + z3.IntVal(0), *[(z3.Int(k), z3.IntVal(v)) for k, v in vals.items()]))
+            if not (z3.is_int_value(got) and got.as_long() == want):
+                bad.append(f"polynomial size {label}: {got} != {want}")
+        n += 1
+        if not (same_size(P * Q * 3, (Q * P) * 3) and isinstance((P * Q) - (Q * P), int)):
+            bad.append("polynomial size: normal form")
     # set semantics: the axioms determine the result; compare the model with numpy
     for trial in range(3):
         X = rs.randint(0, 7, size=6)
